@@ -291,6 +291,72 @@ def jwt_outputs(ctx, rng):
         ctx.nontrivial(("jwt", o.value))
 
 
+def first_export_under_threads(ctx, rng):
+    """the very first use of a fresh key object from several threads at once (a key loaded at start-up and handed to a thread pool): while one thread is
+    still building the key's JWK view, assigning its kid or exporting it privately, a public export made by another thread contains no private member"""
+    import sys
+    import threading
+    j = J.load()
+    sources = []
+    for kind in ("EC:P-256", "OKP:Ed25519", "RSA:2048", "EC:P-521", "OKP:X25519"):
+        jwk = K.new_jwk(kind, None)
+        sources.append((kind, jwk, gen.to_pem(jwk), needles_of(jwk)))
+    rounds = 60 if ctx.tier == "quick" else 1500
+    old = sys.getswitchinterval()
+    sys.setswitchinterval(1e-6)
+    try:
+        for r in range(rounds):
+            kind, jwk, pem, needles = sources[r % len(sources)]
+            how = ("pem", "jwk", "generated")[r % 3]
+            cls = K.cls_of(jwk["kty"])
+            if how == "pem":
+                key = cls.import_key(pem)
+            elif how == "jwk":
+                key = cls.import_key(dict(jwk))
+            else:
+                key = cls.generate_key(jwk.get("crv", 2048)) if jwk["kty"] != "RSA" else cls.import_key(gen.to_pem(jwk, der=True))
+                if jwk["kty"] != "RSA":
+                    nd = K.numbers_of_native(key.raw_value)
+                    needles = needles_of(key.as_dict(private=True)) if False else None
+            outs, errs = [], []
+            n_threads = 4
+            bar = threading.Barrier(n_threads)
+
+            def exporter():
+                bar.wait()
+                for _ in range(3):
+                    try:
+                        outs.append(("as_dict(private=False)", key.as_dict(private=False)))
+                        outs.append(("KeySet.as_dict(private=False)", j.KeySet([key]).as_dict(private=False)))
+                    except Exception as e:   # noqa
+                        errs.append(e)
+
+            def builder(i):
+                bar.wait()
+                try:
+                    (key.thumbprint, key.ensure_kid, lambda: key.as_dict(private=True), lambda: key.kid)[i % 4]()
+                    key.as_dict(private=True)
+                except Exception as e:   # noqa
+                    errs.append(e)
+            ts = [threading.Thread(target=exporter), threading.Thread(target=exporter), threading.Thread(target=builder, args=(r,)), threading.Thread(target=builder, args=(r + 1,))]
+            for t in ts:
+                t.start()
+            for t in ts:
+                t.join()
+            if needles is None:
+                needles = needles_of(key.as_dict(private=True))
+            ctx.count("fresh_keys_exported_under_threads")
+            for kname, out in outs:
+                scan(ctx, kname + "[first use, several threads]", out, needles, {"first_export_under_threads": True, "kind": kind, "how": how}, private_names_forbidden=True)
+            for e in errs:
+                ctx.violation(f"first-use-under-threads-raises:{type(e).__name__}", f"first use of a fresh {kind} key ({how}) from four threads raised {e!r}",
+                              {"first_export_under_threads": True, "kind": kind, "how": how})
+            if ctx.out_of_time():
+                break
+    finally:
+        sys.setswitchinterval(old)
+
+
 def run_shard(ctx):
     J.load()
     J.register_drafts()
@@ -305,6 +371,8 @@ def run_shard(ctx):
             for extra in (None, rng.choice(K.EXTRAS[1:])):
                 key_outputs(ctx, jwk, rep, extra, rng)
         odd_public_keys(ctx, rng)
+        if ctx.shard in (3, 7, 11):
+            first_export_under_threads(ctx, rng)
         n = 60 if ctx.tier == "quick" else 2500
         for i in range(n):
             if ctx.out_of_time():
